@@ -50,6 +50,7 @@ class Tracer:
             if k == "sub": return a[0] - a[1]
             if k == "mul": return a[0] * a[1]
             if k == "div": return a[0] / a[1] if a[1] != 0 else float("nan")
+            if k == "rpow": return a[0] ** a[1] if a[0] > 0 else float("nan")
         except OverflowError:
             return float("nan")
         raise ValueError(k)
@@ -123,8 +124,15 @@ class Sym:
             for _ in range(int(k) - 1):
                 r = r * self
             return r
-        if isinstance(k, float) and k == 0.5:
+        if isinstance(k, (float, np.floating)) and float(k) == 0.5:
             return self.sqrt()
+        if isinstance(k, (float, np.floating)):
+            fr = snap(float(k))
+            if fr == 1:
+                return self
+            if fr.denominator == 1 and fr.numerator >= 1:
+                return self.__pow__(int(fr.numerator))
+            return self.tr.mk("rpow", self.id, self.tr.mk("const", fr).id)      # real power: emitted through the binder `pw`
         return NotImplemented
 
     # NumPy's object-dtype ufunc protocol
@@ -261,6 +269,8 @@ def emit_term(tr, root, names):
         if k == "abs": return "|%s|" % a[0]
         if k == "sqrt": return "Real.sqrt %s" % a[0]
         if k == "exp": return "Real.exp %s" % a[0]
+        if k == "rpow":
+            return "(pw %s %s)" % (a[0], a[1])
         sym = {"add": "+", "sub": "-", "mul": "*", "div": "/"}[k]
         return "(%s %s %s)" % (a[0], sym, a[1])
 
